@@ -228,7 +228,7 @@ static void run() {
         vp::stats().exhaustive = true;
         uint64_t lo = (1ull << 32) / a.nshards * a.shard, hi = (a.shard + 1 == a.nshards) ? (1ull << 32) : (1ull << 32) / a.nshards * (a.shard + 1);
         bool ok = true;
-        for (uint64_t v = lo; v < hi && ok; v++) { ok = check_value(U32, v) && check_value(S32, v); }
+        for (uint64_t v = lo; v < hi && ok; v++) { ok = check_value(U32, v) && check_value(S32, v); if ((v & 0xfffff) == 0) vp::alive(); }
         vp::count(2 * (hi - lo)); vp::cls("all-32-bit-values", 2 * (hi - lo));
         for (uint64_t v = lo; v < hi; v += 4099) vp::nontrivial(v);   // a thinned fingerprint set; every value >= 128 is non-trivial
         strings_upto(10, 11);
